@@ -161,6 +161,17 @@ class XMLWriter:
             if isinstance(fmt, ofmt.Property.__class__) and k == "value":
                 # Custom odML tuples require special handling for save loading from file.
                 if curr_el.dtype and curr_el.dtype.endswith("-tuple") and val:
+                    # The text form separates the tuples by commas and is read back
+                    # as one line of comma separated values. A tuple item containing
+                    # a comma or a line break could not be loaded again, so refuse
+                    # it instead of writing a file that cannot be loaded.
+                    for curr_val in val:
+                        if curr_val and any(isinstance(item, str) and
+                                            any(sep in item for sep in ",\r\n")
+                                            for item in curr_val):
+                            msg = "Property '%s': the tuple value %s contains a comma or " \
+                                  "a line break and cannot be saved" % (curr_el.name, curr_val)
+                            raise ParserException(msg)
                     ele = E(k, odml_tuple_export(val))
                 else:
                     ele = E(k, to_csv(val))
